@@ -12,7 +12,7 @@ CONSTANTS Comp = "multi"
   NBuf = 0
   Gaps <- G_6_31
   Strict = FALSE
-  D = 4
+  D = 3
 INIT Init
 NEXT Next
 VIEW viewE
